@@ -48,14 +48,35 @@ type rkChan chan *rkCount
 func (c rkChan) Close() error { x := <-c; x.closed.Add(1); c <- x; return nil }
 func (c rkChan) Tag() int     { x := <-c; c <- x; return x.id }
 
+// rkFunc: a release function. Two release functions made by one function literal share their
+// code and are two instances all the same. (One func or slice value handed back twice has no
+// identity godi could go by; that shape is not generated for these two kinds.)
+type rkFunc func() *rkCount
+
+func (f rkFunc) Close() error { f().closed.Add(1); return nil }
+func (f rkFunc) Tag() int     { return f().id }
+
+// rkSlice: a batch of handles closed together.
+type rkSlice []*rkCount
+
+func (s rkSlice) Close() error { s[0].closed.Add(1); return nil }
+func (s rkSlice) Tag() int     { return s[0].id }
+
 var rkKinds = []struct {
-	name string
-	typ  reflect.Type
-	mk   func(c *rkCount) reflect.Value
+	name   string
+	typ    reflect.Type
+	mk     func(c *rkCount) reflect.Value
+	noSame bool
 }{
-	{"pointer", reflect.TypeOf(&rkPtr{}), func(c *rkCount) reflect.Value { return reflect.ValueOf(&rkPtr{c}) }},
-	{"map", reflect.TypeOf(rkMap{}), func(c *rkCount) reflect.Value { return reflect.ValueOf(rkMap{"self": c}) }},
-	{"chan", reflect.TypeOf(rkChan(nil)), func(c *rkCount) reflect.Value {
+	{name: "func", typ: reflect.TypeOf(rkFunc(nil)), noSame: true, mk: func(c *rkCount) reflect.Value {
+		return reflect.ValueOf(rkFunc(func() *rkCount { return c }))
+	}},
+	{name: "slice", typ: reflect.TypeOf(rkSlice(nil)), noSame: true, mk: func(c *rkCount) reflect.Value {
+		return reflect.ValueOf(rkSlice{c})
+	}},
+	{name: "pointer", typ: reflect.TypeOf(&rkPtr{}), mk: func(c *rkCount) reflect.Value { return reflect.ValueOf(&rkPtr{c}) }},
+	{name: "map", typ: reflect.TypeOf(rkMap{}), mk: func(c *rkCount) reflect.Value { return reflect.ValueOf(rkMap{"self": c}) }},
+	{name: "chan", typ: reflect.TypeOf(rkChan(nil)), mk: func(c *rkCount) reflect.Value {
 		ch := make(rkChan, 1)
 		ch <- c
 		return reflect.ValueOf(ch)
@@ -68,7 +89,7 @@ var (
 )
 
 func TestC10ReferenceKinds(t *testing.T) {
-	col := evid.New("C10", "reference-kinds", "1-3 result-object constructors (any lifetime) whose instances are of pointer, map or channel kind with a Close method; each constructor fills 2-3 named result fields (declared as the concrete type, io.Closer or a wider interface), every field either with the instance of the first field again or with a fresh instance; resolved field by field a generated number of times from the provider and from scopes, then scopes and provider are closed; oracle: every instance any constructor made has received exactly one Close call in the end; non-trivial = an instance of map or channel kind was handed back under two fields")
+	col := evid.New("C10", "reference-kinds", "1-3 result-object constructors (any lifetime) whose instances are of pointer, map, channel, func or slice kind with a Close method (func instances of one constructor are closures of one literal); each constructor fills 2-3 named result fields (declared as the concrete type, io.Closer or a wider interface), every field either with the instance of the first field again (pointer, map, channel) or with a fresh instance; resolved field by field a generated number of times from the provider and from scopes, then scopes and provider are closed; oracle: every instance any constructor made has received exactly one Close call in the end; non-trivial = an instance of map or channel kind was handed back under two fields, or one invocation made several func or slice instances")
 	defer col.Flush()
 	rapid.Check(t, func(rt *rapid.T) {
 		var made []*rkCount
@@ -91,12 +112,12 @@ func TestC10ReferenceKinds(t *testing.T) {
 			sf := []reflect.StructField{{Name: "Out", Type: reflect.TypeOf(godi.Out{}), Anonymous: true}}
 			var fd []string
 			for j, m := 0, rapid.IntRange(2, 3).Draw(rt, "nfields"); j < m; j++ {
-				f := field{typ: rapid.SampledFrom([]reflect.Type{k.typ, rkCloserType, rkTaggerType}).Draw(rt, "ftype"), name: fmt.Sprintf("r%df%d", i, j), same: j > 0 && rapid.IntRange(0, 2).Draw(rt, "same") != 0}
+				f := field{typ: rapid.SampledFrom([]reflect.Type{k.typ, rkCloserType, rkTaggerType}).Draw(rt, "ftype"), name: fmt.Sprintf("r%df%d", i, j), same: j > 0 && !k.noSame && rapid.IntRange(0, 2).Draw(rt, "same") != 0}
 				r.fields = append(r.fields, f)
 				sf = append(sf, reflect.StructField{Name: fmt.Sprintf("F%d", j), Type: f.typ, Tag: reflect.StructTag(`name:"` + f.name + `"`)})
 				fd = append(fd, fmt.Sprintf("%s:%v same=%v", f.name, f.typ, f.same))
-				if f.same && r.kind != 0 {
-					nt = true
+				if f.same && k.name != "pointer" || j > 0 && k.noSame {
+					nt = true // a reference of another kind than pointer handed back twice, or several func/slice instances from one invocation
 				}
 			}
 			ot := reflect.StructOf(sf)
